@@ -358,7 +358,8 @@ func (m *ldbManager) Add(transaction Transaction) error {
 	m.changes.Lock()
 	defer m.changes.Unlock()
 
-	frontierIdentifier := GetFrontierIdentifier(db)
+	// db is a view pinned at previous, so the parent has to be compared with the actual frontier of the store
+	frontierIdentifier := GetFrontierIdentifier(NewLevelDBWrapper(m.ldb).Subset(frontierByte))
 
 	if previous == frontierIdentifier {
 		if err := m.ldb.Put(common.JoinBytes(patchByte, common.Uint64ToBytes(identifier.Height)), patch.Dump(), nil); err != nil {
